@@ -1051,9 +1051,11 @@ package avro
 
 //@ func (*MapCodec).New
 //@   implements Codec.New
-//@   requires m != nil && m.rtype != nil
-//@   ensures [C05,C06] res != nil
-//@   modifies M[0, 0]
+//@   let i0 := r.i, b0 := r.buf
+//@   requires wfRBS(r)
+//@   ensures [C05,C20,C03,C04] wfRBS(r) && r.i == i0 && r.buf == b0 && sameobj(b0)
+//@   ensures [C05,C20,C11] res != nil && rawalloc(res, 8) && rawfresh(res, 8) && zeroed(res, 8)
+//@   modifies r.rb.types, type resourceType, M[0, 0]
 
 // ================================================================ build.go (C05, C20, C13, C06)
 // Decoder construction.  tdesc(typ) is the runtime type descriptor of the destination Go type (nil type: the value is
